@@ -408,10 +408,22 @@ package rtsp
 //@   requires c != nil && c.conn != nil && c.logger != nil && !held(&c.lockW)
 //@   modifies c.realm, c.nonce, c.rsession, c.seq, c.md5password, misc(c), held(&c.lockW), out(c.conn), ghostInt(c.conn, "flushed"), ghostInt(c.conn, "flushes"), ghostAll("rpos"), anyElems([]string(nil)), ghostAll("misc")
 //@   ensures !held(&c.lockW) && upTo3(ghostInt(c.conn, "flushes"), old(ghostInt(c.conn, "flushes")))
+// PLAY: the stream (its converter goroutines, a multicast address and four ports) is created only after the camera has
+// answered PLAY with 2xx; a refused / failed / unanswered PLAY leaves no stream behind (Open's error path only forgets
+// the pointer, nobody would close it), sends at most three requests and leaves the write lock free
 //@ func (c *PullClient) requestPlay() (err error)
-//@   trusted
-//@   requires c != nil
-//@   modifies c.stream, c.realm, c.nonce, c.rsession, c.seq, misc(c)
+//@   requires c != nil && c.conn != nil && c.logger != nil && c.url != nil && !held(&c.lockW) && utils.Multicast != nil
+//@   modifies all()
+//@   local resp *Response
+//@   local mproxy *multicastProxy
+//@   local i int
+//@   loop 0: invariant rtpChannelMin <= i && mproxy != nil && err == nil && resp != nil
+//@   loop 0: modifies mproxy.ports[:], ghostInt(utils.Multicast, "taken"), misc(utils.Multicast)
+//@   assert[call:NewStream] err == nil && resp != nil && 200 <= resp.StatusCode && resp.StatusCode <= 300
+//@   assert[call:NextIP] err == nil && resp != nil
+//@   assert[call:NextPort] err == nil && resp != nil
+//@   ensures err != nil ==> c.stream == old(c.stream) && c.conn == old(c.conn) && c.logger == old(c.logger) && c.url == old(c.url) && !held(&c.lockW) && upTo3(ghostInt(c.conn, "flushes"), old(ghostInt(c.conn, "flushes")))
+//@   ensures err != nil ==> ghostInt(utils.Multicast, "taken") == old(ghostInt(utils.Multicast, "taken"))
 //@ func (c *PullClient) requestSetup() (err error)
 //@   requires c != nil && c.conn != nil && c.logger != nil && c.url != nil && !held(&c.lockW)
 //@   modifies c.realm, c.nonce, c.rsession, c.seq, c.md5password, misc(c), held(&c.lockW), out(c.conn), ghostInt(c.conn, "flushed"), ghostInt(c.conn, "flushes"), ghostAll("rpos"), anyElems([]string(nil)), ghostAll("misc")
@@ -428,7 +440,7 @@ package rtsp
 // Open: whatever the camera does at whichever step, a failed Open leaves the client closed with no connection and no
 // stream (the connection it opened is closed); success means the five steps ran in order
 //@ func (c *PullClient) Open() (err error)
-//@   requires c != nil && c.logger != nil && c.url != nil && !held(&c.lockW)
+//@   requires c != nil && c.logger != nil && c.url != nil && !held(&c.lockW) && utils.Multicast != nil
 //@   modifies all()
 //@   ensures !old(c.closed) ==> err == nil && c.conn == old(c.conn) && c.stream == old(c.stream) && !c.closed
 //@   ensures old(c.closed) && err != nil ==> c.closed && c.conn == nil && c.stream == nil
